@@ -156,6 +156,28 @@ reg(
   "solver outputs to 2e-3 (Newton) / 2e-2 (CG) scaled by cond(M); worlds that hit the iteration limit are judged on everything except solver outputs.",
 )
 
+reg(
+  "C19",
+  "property-based testing (Hypothesis): geometry-free trees checked against a reference filter predicate written from the statement and against MuJoCo's mj_collision pair set",
+  "Random kinematic trees of mutually overlapping spheres (jointless chains, mocap and static bodies, 4-bit contype/conaffinity, excludes incl. the world, explicit pairs on otherwise filtered geoms, "
+  "filterparent on/off, 1-2 worlds): the reported geom-pair set must equal the predicate and MuJoCo's set, each pair once, and explicit-pair contacts must carry the pair's dim/friction/solref/solimp/margin.",
+  "Spheres plus one plane only (geometry never filters by construction, checked per case); MuJoCo's extra rule 'not both bodies without dofs' is part of the reference; the mocap/static extra pairs are a KNOWN-FINDING.",
+)
+reg(
+  "C18",
+  "property-based metamorphic testing (Hypothesis) with an exhaustive configuration sweep: 3 broadphases x 16 filter masks per generated scene, bitwise comparison of canonical contact multisets",
+  "Scenes of 3-25 mixed geoms (planes first or last, margins/gaps, explicit and filtered pairs) in 1 or 3 worlds with layouts aimed at sweep-and-prune corner cases (coincident centres, equal projections "
+  "on the sweep axis, touching bounds, bodies 10 m / 1 km away): all 48 configurations must reproduce the NXN/default-filter contacts exactly.",
+  "CPU only; contacts exactly at margin+gap (1e-6) are boundary-skipped; pair margins wider than the geoms' own are excluded by construction (C04 finding); no hfield/SDF/flex; sleeping's incremental pass not covered.",
+)
+reg(
+  "C20",
+  "property-based testing (Hypothesis) with a per-contact geometric oracle: exact signed-distance/support functions, closed forms and a translation metamorphic test",
+  "Every contact of generated scenes (all primitive and convex pair types, placements from deep to in-gap, aligned and random orientations, margins, tilted planes): frame orthonormal with det +1, witness points "
+  "pos -/+ n*dist/2 on both surfaces, dist equal to the support separation along the normal (analytic where a closed form exists), dist increases by eps when geom2 is moved by eps along the normal.",
+  "Deep convex penetrations and near-coincident sphere/capsule axes get the frame check only; heuristic contacts identical to MuJoCo's are accepted; convex tolerances 4e-3/1e-2; one mesh-mesh GJK/EPA inconsistency is a KNOWN-FINDING.",
+)
+
 NOT_APPLICABLE = {}
 
 
